@@ -20,6 +20,8 @@ import (
 	"strconv"
 	"time"
 
+	"github.com/syndtr/goleveldb/leveldb"
+
 	"github.com/zenon-network/go-zenon/chain/nom"
 	"github.com/zenon-network/go-zenon/common/db"
 
@@ -346,6 +348,121 @@ func runScenario(c *xs.Ctx, r *xs.Result, sc scenario, only int) {
 	}
 }
 
+// runGenesis: the empty history. A node started on an empty directory commits the genesis momentum; the process is stopped
+// before every leveldb write of that first commit. Every image must hold exactly nothing or exactly the genesis commit
+// (raw key/value set of the ledger database), a node must start on it and be in the genesis state of a node that never
+// crashed, and delivering momentums afterwards must lead to the crash-free state.
+func runGenesis(c *xs.Ctx, r *xs.Result, only int) {
+	sc := scenarios(c.Tier)[0]
+	bt := build(c, sc)
+	ref := vnode.New(vnode.Options{Dir: c.TempDir(), NoPillars: true})
+	genesisDig := ref.FullDigest()
+	refDir := ref.Opts.Dir
+	ref.Stop()
+	genesisRaw := rawKV(filepath.Join(refDir, "nom"))
+	os.RemoveAll(refDir)
+	imgRoot := c.TempDir()
+	var images []image
+	dir := c.TempDir()
+	k := 0
+	db.VerifWriteHook = func(site string) {
+		if (only < 0 && c.Mine(k)) || only == k {
+			d := filepath.Join(imgRoot, strconv.Itoa(k))
+			copyDir(dir, d)
+			images = append(images, image{K: k, Site: site, Dir: d})
+		}
+		k++
+	}
+	n := vnode.New(vnode.Options{Dir: dir, NoPillars: true})
+	db.VerifWriteHook = nil
+	if n.FullDigest() != genesisDig {
+		panic("genesis scenario: two fresh nodes differ")
+	}
+	n.Destroy()
+	if c.Shard == 0 || only >= 0 {
+		r.Count("operations", 1)
+		r.Count("genesis_commit_writes", int64(k))
+	}
+	for _, img := range images {
+		r.Count("crash_points", 1)
+		if img.K > 0 {
+			r.Count("crash_points_strictly_inside", 1)
+		}
+		r.Add("sites", "genesis:"+img.Site)
+		r.Sample(map[string]interface{}{"scenario": "genesis", "write": img.K, "site": img.Site, "operation": 0})
+		rep := map[string]interface{}{"scenario": "genesis", "write": img.K, "mode": "image"}
+		desc := fmt.Sprintf("scenario \"genesis\" (node started on an empty directory), stop before leveldb write #%d (%s) of the genesis commit", img.K, img.Site)
+		raw := rawKV(filepath.Join(img.Dir, "nom"))
+		switch {
+		case len(raw) == 0:
+			r.Count("images_pre_state", 1)
+		case sameKV(raw, genesisRaw):
+			r.Count("images_post_state", 1)
+		default:
+			r.Count("images_torn", 1)
+			r.Violate("C08:torn-genesis-commit", fmt.Sprintf("%s: the ledger database holds %d of the genesis commit's %d keys: neither empty nor the complete commit", desc, len(raw), len(genesisRaw)), rep)
+			os.RemoveAll(img.Dir)
+			continue
+		}
+		var nn *vnode.Node
+		func() {
+			defer func() {
+				if p := recover(); p != nil {
+					r.Violate("C08:reopen-fails", fmt.Sprintf("%s: node does not start on the database: %v", desc, p), rep)
+					nn = nil
+				}
+			}()
+			nn = vnode.New(vnode.Options{Dir: img.Dir, NoPillars: true})
+		}()
+		if nn == nil {
+			os.RemoveAll(img.Dir)
+			continue
+		}
+		if nn.FullDigest() != genesisDig {
+			r.Violate("C08:continuation-differs", fmt.Sprintf("%s: after restart the node is not in the genesis state of a node that never crashed", desc), rep)
+			nn.Destroy()
+			continue
+		}
+		if _, err, pan := nn.InsertChain(vnode.CloneBatch(bt.b)); err != nil || pan != nil {
+			r.Violate("C08:continuation-fails", fmt.Sprintf("%s: delivering momentums after restart fails: err=%v panic=%v", desc, err, pan), rep)
+		} else if nn.FullDigest() != bt.finalDig {
+			r.Violate("C08:continuation-differs", fmt.Sprintf("%s: after restart and delivery the store differs from a node that never crashed", desc), rep)
+		} else {
+			r.Count("continuations_ok", 1)
+		}
+		nn.Destroy()
+	}
+}
+
+// rawKV reads every key/value pair of a leveldb directory (opened on its own, not through a node).
+func rawKV(path string) map[string]string {
+	out := map[string]string{}
+	if _, err := os.Stat(path); err != nil {
+		return out
+	}
+	l, err := leveldb.OpenFile(path, nil)
+	must(err)
+	defer l.Close()
+	it := l.NewIterator(nil, nil)
+	defer it.Release()
+	for it.Next() {
+		out[string(it.Key())] = string(it.Value())
+	}
+	return out
+}
+
+func sameKV(a, b map[string]string) bool {
+	if len(a) != len(b) {
+		return false
+	}
+	for k, v := range a {
+		if w, ok := b[k]; !ok || w != v {
+			return false
+		}
+	}
+	return true
+}
+
 func tail(b []byte) string {
 	if len(b) > 600 {
 		b = b[len(b)-600:]
@@ -418,6 +535,9 @@ func init() {
 				}
 				must(json.Unmarshal(c.Replay, &rep))
 				only, want = rep.Write, rep.Scenario
+			}
+			if want == "" || want == "genesis" {
+				runGenesis(c, r, only)
 			}
 			for _, sc := range scenarios(c.Tier) {
 				if want != "" && sc.Name != want {
